@@ -1,6 +1,7 @@
 (* C20/Props.v — the property theorems, nothing else.
-   Model: C20/Model.v (src/irclib.py Irc.addCallback/getCallback/removeCallback, the callPrecedence
-   shapes, Owner.load/unload/reload).  Proofs: AuxList.v, Sort.v, Lemmas.v, History.v, Failure.v.
+   Model: C20/Model.v (src/irclib.py Irc.addCallback/_sortCallbacks/getCallback/removeCallback, the
+   callPrecedence shapes, Owner.load/unload/reload) as of the fixes C20.F21 (import part), C20.F22,
+   C20.F23, C20.F24.  Proofs: AuxList.v, Sort.v, Lemmas.v, History.v, Failure.v.
    [lower] is str.lower(): any function.  [orc]/[o] is the iteration order of the Python set
    `firsts`: any function returning a permutation of its argument. *)
 From Coq Require Import List NArith Permutation.
@@ -9,7 +10,7 @@ Require Import Base.Wire Base.PyStr C20.Model C20.Sort C20.Lemmas C20.History C2
 
 (* addCallback, for EVERY set-iteration oracle: either the new list is a permutation of
    old ++ [new] in which every declared edge (a before b) holds, or AssertionError is raised and
-   the list is the old one (name taken) or old ++ [new], unsorted (the assert at the end). *)
+   the callbacks list is exactly the old one. *)
 Theorem C20_toposort :
   forall lower orc cbs c, perm_oracle orc -> NoDup (ids (cbs ++ [c])) ->
   match add_callback lower orc cbs c with
@@ -17,10 +18,7 @@ Theorem C20_toposort :
       get_callback lower cbs (cname c) = None /\
       Permutation r (cbs ++ [c]) /\
       forall a b, In (a, b) (declared_edges lower (cbs ++ [c])) -> (idx a (ids r) < idx b (ids r))%nat
-  | (r, Raise e) =>
-      e = AssertionError /\
-      ((get_callback lower cbs (cname c) <> None /\ r = cbs) \/
-       (get_callback lower cbs (cname c) = None /\ r = cbs ++ [c]))
+  | (r, Raise e) => e = AssertionError /\ r = cbs
   end.
 Proof. intros lower orc cbs c H. exact (add_callback_spec lower orc H cbs c). Qed.
 Print Assumptions C20_toposort.
@@ -34,15 +32,22 @@ Theorem C20_toposort_complete :
 Proof. intros lower orc cbs c rank H. exact (add_callback_complete lower orc H cbs c rank). Qed.
 Print Assumptions C20_toposort_complete.
 
-(* cyclic constraints (a closed walk) are rejected with AssertionError, whatever the oracle; the
-   state left behind is old ++ [new]: the new callback STAYS registered, unsorted (finding F22) *)
+(* cyclic constraints (any closed walk, a self-reference being the walk of length 1) are rejected
+   with AssertionError whatever the oracle, and nothing stays registered *)
 Theorem C20_cycle_rejected :
   forall lower orc cbs c x, perm_oracle orc -> NoDup (ids (cbs ++ [c])) ->
-  get_callback lower cbs (cname c) = None ->
   walk (declared_edges lower (cbs ++ [c])) x x ->
-  add_callback lower orc cbs c = (cbs ++ [c], Raise AssertionError).
+  add_callback lower orc cbs c = (cbs, Raise AssertionError).
 Proof. exact add_callback_cycle. Qed.
 Print Assumptions C20_cycle_rejected.
+
+(* a callback one of whose callBefore/callAfter names resolves to itself is rejected *)
+Theorem C20_selfref_rejected :
+  forall lower orc cbs c, perm_oracle orc -> NoDup (ids (cbs ++ [c])) ->
+  selfref_b lower (cbs ++ [c]) c = true ->
+  add_callback lower orc cbs c = (cbs, Raise AssertionError).
+Proof. exact add_callback_selfref. Qed.
+Print Assumptions C20_selfref_rejected.
 
 (* whether a callback is accepted does not depend on the set iteration order *)
 Theorem C20_accept_oracle_independent :
@@ -59,46 +64,33 @@ Theorem C20_owner_first :
 Proof. exact owner_first. Qed.
 Print Assumptions C20_owner_first.
 
-(* Full statement: every name n in c.callBefore that resolves to a registered d puts c before d.
-   The pinned code violates it for a callback naming itself (finding F23): proved on the domain
-   no_selfref, refuted by a witness outside. *)
-Theorem C20_declared_before_on_domain :
+(* every name n in c.callBefore that resolves to a registered d puts c before d -- full statement
+   (the domain restriction no_selfref and the refuting witness went with fix C20.F23) *)
+Theorem C20_declared_before :
   forall lower orc cbs c0 r c n d, perm_oracle orc -> NoDup (ids (cbs ++ [c0])) ->
   add_callback lower orc cbs c0 = (r, Ok tt) ->
-  In c (cbs ++ [c0]) -> ckind c = 0%N -> no_selfref lower (cbs ++ [c0]) c = true ->
+  In c (cbs ++ [c0]) -> ckind c = 0%N ->
   In n (cbefore c) -> get_callback lower (cbs ++ [c0]) n = Some d ->
   (idx (cid c) (ids r) < idx (cid d) (ids r))%nat.
 Proof.
-  intros lower orc cbs c0 r c n d Ho Hnd Ea Hc Hk Hs Hn Hg.
+  intros lower orc cbs c0 r c n d Ho Hnd Ea Hc Hk Hn Hg.
   pose proof (add_callback_spec lower orc Ho cbs c0 Hnd) as S. simpl in S. rewrite Ea in S.
   destruct S as [_ [_ Hed]]. apply Hed. eapply declared_before_edge; eauto.
 Qed.
-Print Assumptions C20_declared_before_on_domain.
+Print Assumptions C20_declared_before.
 
-Theorem C20_declared_after_on_domain :
+Theorem C20_declared_after :
   forall lower orc cbs c0 r c n d, perm_oracle orc -> NoDup (ids (cbs ++ [c0])) ->
   add_callback lower orc cbs c0 = (r, Ok tt) ->
-  In c (cbs ++ [c0]) -> ckind c = 0%N -> no_selfref lower (cbs ++ [c0]) c = true ->
+  In c (cbs ++ [c0]) -> ckind c = 0%N ->
   In n (cafter c) -> get_callback lower (cbs ++ [c0]) n = Some d ->
   (idx (cid d) (ids r) < idx (cid c) (ids r))%nat.
 Proof.
-  intros lower orc cbs c0 r c n d Ho Hnd Ea Hc Hk Hs Hn Hg.
+  intros lower orc cbs c0 r c n d Ho Hnd Ea Hc Hk Hn Hg.
   pose proof (add_callback_spec lower orc Ho cbs c0 Hnd) as S. simpl in S. rewrite Ea in S.
   destruct S as [_ [_ Hed]]. apply Hed. eapply declared_after_edge; eauto.
 Qed.
-Print Assumptions C20_declared_after_on_domain.
-
-Theorem C20_declared_before_refuted :
-  exists cbs c0 r n d, no_selfref lower_ascii (cbs ++ [c0]) c0 = false /\
-  add_callback lower_ascii id_oracle cbs c0 = (r, Ok tt) /\
-  In n (cbefore c0) /\ get_callback lower_ascii (cbs ++ [c0]) n = Some d /\
-  ~ (idx (cid c0) (ids r) < idx (cid d) (ids r))%nat.
-Proof.
-  exists [cA0], cS, [cA0; cS], nA0, cA0. destruct selfref_refuted as [H1 [H2 [H3 H4]]].
-  split; [exact H1|]. split; [exact H2|]. split; [exact H3|]. split; [exact H4|].
-  vm_compute. intro H. inversion H.
-Qed.
-Print Assumptions C20_declared_before_refuted.
+Print Assumptions C20_declared_after.
 
 (* over every history: each plugin registered once (names distinct after folding), objects distinct *)
 Theorem C20_once :
@@ -116,27 +108,28 @@ Theorem C20_owner_stays :
 Proof. exact steps_owner. Qed.
 Print Assumptions C20_owner_stays.
 
-(* Full statement: an operation that does not answer success leaves the registered list as it was.
-   Violated by the pinned code (findings F21, F22).  Proved for `load` on the decidable domain
-   load_dom (the plugin's constraints are acyclic in the current list); refuted outside it and
-   for `reload` (raising constructor / non-ImportError import). *)
-Theorem C20_failed_load_keeps_set_on_domain :
+(* a `load` that does not answer success leaves the registered list as it was -- full statement
+   (the domain load_dom and the cyclic witness went with fix C20.F22) *)
+Theorem C20_failed_load_keeps_set :
   forall lower world s n imp initf o, perm_oracle o -> wf_st lower s ->
-  load_dom lower world s n = true ->
   forall s' r, owner_load lower world s n imp initf o = (s', r) -> r <> Ok 0%N ->
   s_cbs s' = s_cbs s.
 Proof. exact failed_load_keeps. Qed.
-Print Assumptions C20_failed_load_keeps_set_on_domain.
+Print Assumptions C20_failed_load_keeps_set.
 
-Theorem C20_failed_load_keeps_set_refuted :
-  exists world s n, load_dom lower_ascii world s n = false /\
-  exists s', owner_load lower_ascii world s n 0 false id_oracle = (s', Raise AssertionError) /\
-             s_cbs s' <> s_cbs s.
-Proof.
-  exists w_cyc, (steps lower_ascii w_cyc st0 ops_cyc), nAlpha. split; [vm_compute; reflexivity|].
-  eexists. split; [vm_compute; reflexivity|]. vm_compute. discriminate.
-Qed.
-Print Assumptions C20_failed_load_keeps_set_refuted.
+(* Full statement for reload:  a reload that does not answer success leaves the same plugins
+   registered.  Since fixes C20.F21 (import part) and C20.F24 it holds whenever the IMPORT of the
+   new code fails (ImportError or any other exception, also after an earlier failed reload), on
+   the decidable domain readd_dom (putting the old callback back is accepted: its constraints are
+   acyclic in the current list).  It is still violated when the import succeeds and the old
+   instance's die() or the new constructor raises (known finding C20.F21, witness below). *)
+Theorem C20_failed_reload_keeps_set_on_domain :
+  forall lower world s n imp initf dief o, perm_oracle o -> wf_st lower s ->
+  imp <> 0%N -> readd_dom lower s n = true ->
+  forall s' r, owner_reload lower world s n imp initf dief o = (s', r) ->
+  r <> Ok 0%N /\ Permutation (s_cbs s') (s_cbs s).
+Proof. exact failed_import_reload_keeps. Qed.
+Print Assumptions C20_failed_reload_keeps_set_on_domain.
 
 Theorem C20_failed_reload_keeps_set_refuted :
   exists world s n s', get_callback lower_ascii (s_cbs s) n <> None /\
@@ -147,19 +140,6 @@ Proof.
   split; [vm_compute; discriminate|]. split; vm_compute; reflexivity.
 Qed.
 Print Assumptions C20_failed_reload_keeps_set_refuted.
-
-(* same clause, second way to lose a plugin (finding F24): after a reload that failed with
-   ImportError and put the plugin back, a further reload -- even of a now-importable plugin --
-   raises KeyError (sys.modules lookup outside the try) and the plugin is gone *)
-Theorem C20_failed_reload_after_importerror_refuted :
-  exists world s n s', get_callback lower_ascii (s_cbs s) n <> None /\
-  owner_reload lower_ascii world s n 0 false false id_oracle = (s', Raise KeyError) /\
-  get_callback lower_ascii (s_cbs s') n = None.
-Proof.
-  exists w_reload, (steps lower_ascii w_reload st0 ops_reload2), nAlpha. eexists.
-  split; [vm_compute; discriminate|]. split; vm_compute; reflexivity.
-Qed.
-Print Assumptions C20_failed_reload_after_importerror_refuted.
 
 (* the commands answered are those of the registered callbacks (dispatch itself: C14) *)
 Theorem C20_commands_union_partial :
